@@ -37,7 +37,7 @@ def run(replay=None):
                 ck.case((tuple(t['kind']), e['kind'], e['created'], e['q']['fee'] >= 0, len(e['x']['ins']), sum(1 for o in e['x']['outs'] if o[2] == 0)))
         for iss in v['issues']:
             if iss['kind'] == 'rejected':
-                ck.violation(None, 'clause %s; %s wallet seed=%d, event %d: %s | history: %s' % (
+                ck.violation(iss.get('dev') or None, 'clause %s; %s wallet seed=%d, event %d: %s | history: %s' % (
                     iss['why'], t['kind'], t['seed'], iss['at'], t['desc'][iss['at'] - 1][:500], ' ; '.join(x[:70] for x in t['desc'][:iss['at'] - 1])[:900]),
                     {'job': [job[0], list(job[1]), job[2]]})
     ck.count(0)
